@@ -260,6 +260,8 @@ PROPS["C04"] = {
         J(c04 + "HeapOps", init=3, ops=3, covers=["re-init"]),
         J(c04 + "HeapOps", fixedinit=6, ops=1, onlyremovefix=1, cfg={"Witnesses": 4}),
         J(c04 + "GenericOps", maxn=4, ops=2),
+    ] + [J(c04 + h, n=n) for h in ("SliceStep", "HeapStep", "GenericStep") for n in (12, 13, 15)] + [
+        J(c04 + "SliceStep", n=31), J(c04 + "HeapStep", n=31), J(c04 + "GenericStep", n=24, noinit=1),
     ],
     "thorough": [
         J(c04 + "SliceOps", maxn=5, ops=3),
@@ -267,9 +269,10 @@ PROPS["C04"] = {
         J(c04 + "HeapOps", init=4, ops=4, covers=["re-init"], cfg={"MaxPaths": 60000000}),
         J(c04 + "HeapOps", fixedinit=7, ops=1, onlyremovefix=1, cfg={"Witnesses": 4, "MaxPaths": 60000000}),
         J(c04 + "GenericOps", maxn=5, ops=3),
-    ],
-    "bounds": {"quick": "comparator = comparison of arbitrary uninterpreted keys (every strict weak order incl. ties between different values); Slice: every valid heap of <= 4 symbolic elements (and FromSlice of every arbitrary slice <= 4), then 2 arbitrary operations Push/Pop/Peek/Remove(i)/Fix(i)/PopAll with symbolic 64-bit indices; Heap: 0..3 pushed elements + a foreign heap, 3 arbitrary operations Push/Pop/Peek/Remove(h)/Fix(h)/Init/PopAll over every choice of live, stale and foreign handles, plus every heap of exactly 6 pushed elements followed by one Remove(h)/Fix(h) of any handle (replacement moving up or down), with the heap order checked between every element and its parent through the handles' indices; generic Init/Push/Pop/Remove/Fix on a harness container of <= 4 elements, 2 operations",
-               "thorough": "up to 5-6 elements, 3-4 operations"},
+    ] + [J(c04 + h, n=n) for h in ("SliceStep", "HeapStep") for n in list(range(2, 34)) + [63, 64]] + [
+        J(c04 + "GenericStep", n=n) for n in range(2, 18)] + [J(c04 + "GenericStep", n=n, noinit=1) for n in (24, 31, 32, 33, 63)],
+    "bounds": {"quick": "comparator = comparison of arbitrary uninterpreted keys (every strict weak order incl. ties between different values); Slice: every valid heap of <= 4 symbolic elements (and FromSlice of every arbitrary slice <= 4), then 2 arbitrary operations Push/Pop/Peek/Remove(i)/Fix(i)/PopAll with symbolic 64-bit indices; Heap: 0..3 pushed elements + a foreign heap, 3 arbitrary operations Push/Pop/Peek/Remove(h)/Fix(h)/Init/PopAll over every choice of live, stale and foreign handles, plus every heap of exactly 6 pushed elements followed by one Remove(h)/Fix(h) of any handle (replacement moving up or down), with the heap order checked between every element and its parent through the handles' indices; generic Init/Push/Pop/Remove/Fix on a harness container of <= 4 elements, 2 operations; inductive step for all three heaps: every valid heap (heap order assumed, not built by a history) of exactly 12, 13, 15 and 31 (generic: 24) distinct elements with symbolic priorities (every strict weak order incl. ties), then one Push / Pop / Remove(every index or handle, incl. out of range) / Fix(every index or handle, new symbolic priority) (generic: also Init), with heap order between every element and its parent, content and handle indices asserted afterwards",
+               "thorough": "up to 5-6 elements, 3-4 operations; inductive step for every size 2..33, 63, 64 (generic: 2..17 with Init, 24..63 without)"},
     "outside": ["PushElement of an element that is already in a heap (not in the property)", "longer operation sequences"],
     "assumptions": ["the comparator is a strict weak order (it is key(a) < key(b) for an arbitrary key function)"],
     "level_text": "Bounded symbolic model checking of heapz: element values are symbolic and the order is an uninterpreted key comparison, so heap order, minimality of Pop/Peek, multiset preservation and handle stability are decided by the solver for every strict weak order and every value multiset (ties included) within the size bounds.",
@@ -414,6 +417,7 @@ PROPS["C19"] = {
     "patterns": ["./c19"],
     "level": "model_checking",
     "concurrent": True,
+    "shim": {"files": ["goz/goz.go"], "sync": True, "atomic": False, "runtime": False, "harness_uses_shims": True, "kinds": "1,2,4,6"},
     "quick": [
         J(c19 + "Limit", tasks=2, maxlimit=2, covers=["default limit", "task panicked"], cfg={"Preempt": 1, "Witnesses": 0, "MaxPaths": 80000000}),
         J(c19 + "Limit", tasks=3, maxlimit=1, covers=["default limit", "task panicked"], cfg={"Preempt": 1, "Witnesses": 0, "MaxPaths": 80000000}),
@@ -428,32 +432,38 @@ PROPS["C19"] = {
     "outside": ["Wait(timeout) (timer)", "a handler that itself panics", "more functions / preemptions"],
     "assumptions": ["channels, WaitGroup and goroutine start follow the Go memory model as implemented by the engine's scheduler", "fmt/runtime stack formatting in the nil-handler path is stubbed (empty trace)"],
     "level_text": "Bounded model checking of the real Limiter/Recover code under a controlled scheduler (goroutines created inside the library, buffered-channel semaphore, WaitGroup, nested defer/recover): every schedule within the preemption bound, for every limit and panic pattern; concurrency bound, exactly-once execution, Wait semantics, handler delivery and slot release (as absence of deadlock) are checked on each.",
-    "level_note": "Trusted: go/ssa, gosym scheduler. Violations are deterministic consequences of the panic pattern (slot leak -> deadlock, lost task) and are confirmed by running the harness natively under the real scheduler.",
+    "level_note": "Trusted: go/ssa, gosym scheduler. Counterexamples are confirmed natively: goz.go is rebuilt (overlay) with its WaitGroup operations gated by the schedule controller, the harness's own atomics/gates go through the same controller, and every submitted function declares its goroutine's logical id, so the recorded order of WaitGroup/atomic/gate operations is replayed by the real code (channel operations and goroutine starts are left to the runtime); an unconfirmed counterexample is reported as inconclusive.",
 }
 
 # ------------------------------------------------------------------------------------------- C05 / C06
 c05 = "vh/c05."
 TR = {"MaxPaths": 80000000, "Witnesses": 6}
 PROPS["C05"] = {
-    "patterns": ["./c05"],
+    "patterns": ["./c05", "./c05q"],
+    "overlay": {"/repo/algz/zz_verif_hooks.go": "inpkg/algz_zz.go"},
     "level": "model_checking",
     "quick": [
+        J("vh/c05q.QueueFIFO", maxcap=4, ops=4, maxhead=65536),
         J(c05 + "Queries", npat=2, plen=2, tlen=2, letters=3, invalid=1, covers=["invalid byte in text", "several occurrences"], cfg=TR),
         J(c05 + "Queries", npat=2, plen=2, tlen=3, letters=2, invalid=1, covers=["invalid byte in text", "several occurrences"], cfg=TR),
         J(c05 + "Queries", npat=3, plen=1, lastlen=3, tlen=3, letters=2, invalid=0, cfg=TR),
+        J(c05 + "Queries", npat=2, plen=2, tlen=3, letters=2, invalid=0, rot=2, cfg=TR),
+        J(c05 + "Queries", npat=2, plen=2, tlen=3, letters=2, invalid=0, rot=3, cfg=TR),
         J(c05 + "Prefix", npat=2, plen=2, klen=2, letters=4, cfg=TR),
         J(c05 + "Prefix", npat=3, plen=2, klen=1, letters=3, cfg=TR),
     ],
     "thorough": [
+        J("vh/c05q.QueueFIFO", maxcap=8, ops=7),
+        J("vh/c05q.QueueFIFO", maxcap=5, ops=5, maxhead=1 << 24),
         J(c05 + "Queries", npat=2, plen=2, tlen=3, letters=3, invalid=1, covers=["invalid byte in text", "several occurrences"], cfg=TR),
         J(c05 + "Queries", npat=2, plen=3, tlen=4, letters=3, invalid=1, covers=["invalid byte in text", "several occurrences"], cfg=TR),
         J(c05 + "Queries", npat=3, plen=2, tlen=4, letters=2, invalid=1, cfg=TR),
         J(c05 + "Prefix", npat=3, plen=3, klen=2, letters=3, cfg=TR),
         J(c05 + "Prefix", npat=2, plen=3, klen=3, letters=4, cfg=TR),
     ],
-    "bounds": {"quick": "alphabet of symbolic runes: one arbitrary 1-byte, 2-byte, 3-byte (U+FFFD included) and 4-byte rune; pattern sets: 2 patterns of 0..2 letters with texts of 0..2 letters over 3 letters / 0..3 letters over 2 letters, plus one arbitrary invalid byte at any position, and 3 patterns (two of <= 1 letter, one of 3) over 2 letters with texts <= 3 (nested, overlapping, duplicate and empty patterns all arise); PrefixSearch/FuzzySearch: 2 patterns <= 2 letters over 4 letters with keys <= 2, 3 patterns <= 2 over 3 letters with keys <= 1",
-               "thorough": "patterns up to 3 letters, texts up to 4, keys up to 3"},
-    "outside": ["patterns that are not valid UTF-8", "more than 3 patterns / longer strings", "completeness of FuzzySearch (the property only says its results are inserted patterns)"],
+    "bounds": {"quick": "alphabet of symbolic runes: one arbitrary 1-byte, 2-byte, 3-byte (U+FFFD included) and 4-byte rune; pattern sets: 2 patterns of 0..2 letters with texts of 0..2 letters over 3 letters / 0..3 letters over 2 letters, plus one arbitrary invalid byte at any position, and 3 patterns (two of <= 1 letter, one of 3) over 2 letters with texts <= 3 (nested, overlapping, duplicate and empty patterns all arise); 2-letter alphabets {1-byte, 2-byte}, {3-byte, 4-byte} and {4-byte, 1-byte} runes; PrefixSearch/FuzzySearch: 2 patterns <= 2 letters over 4 letters with keys <= 2, 3 patterns <= 2 over 3 letters with keys <= 1; lemma for the breadth-first order of BuildFailureLinks: the private node queue from every reachable state (capacity 1..4, symbolic head position < 65536, every fill) followed by every sequence of 4 pushes/pops and a drain pops in FIFO order (growth of a wrapped buffer included)",
+               "thorough": "patterns up to 3 letters, texts up to 4, keys up to 3; queue lemma: capacity 1..8, 7 operations"},
+    "outside": ["patterns that are not valid UTF-8", "more than 3 patterns / longer strings (tries whose breadth-first frontier exceeds the queue's initial capacity of 10 are covered only through the queue lemma, not end to end)", "queue head positions beyond the stated range (the counter restarts at 0 on every growth; a 32-bit wrap needs 2^32 pushes without growth)", "completeness of FuzzySearch (the property only says its results are inserted patterns)"],
     "assumptions": ["letters of different UTF-8 widths are different runes; the letter structure of patterns and texts is enumerated, the rune values and the invalid byte are symbolic"],
     "level_text": "Bounded symbolic model checking of the real Aho-Corasick trie: pattern sets and texts are enumerated as letter sequences over a symbolic alphabet whose rune values (one per UTF-8 width, plus an arbitrary invalid byte) are decided by the solver, so width-dependent offsets, the U+FFFD/invalid-byte confusion and failure-link traversal are all covered; results are compared with naive occurrence enumeration.",
     "level_note": "Trusted: go/ssa, gosym (witness-validated), z3; unicode/utf8 runs from its own SSA.",
@@ -466,6 +476,8 @@ PROPS["C06"] = {
         J(c05 + "Replace", npat=2, plen=2, tlen=2, letters=3, invalid=1, covers=["overlapping region"], cfg=TR),
         J(c05 + "Replace", npat=3, plen=1, lastlen=3, tlen=3, letters=2, invalid=0, covers=["overlapping region"], cfg=TR),
         J(c05 + "Replace", npat=3, plen=1, lastlen=3, tlen=4, letters=2, invalid=0, covers=["overlapping region"], cfg=TR),
+        J(c05 + "Replace", npat=2, plen=2, tlen=3, letters=2, invalid=0, rot=2, covers=["overlapping region"], cfg=TR),
+        J(c05 + "Replace", npat=2, plen=2, tlen=3, letters=2, invalid=0, rot=3, covers=["overlapping region"], cfg=TR),
     ],
     "thorough": [
         J(c05 + "Replace", npat=2, plen=2, tlen=3, letters=3, invalid=1, covers=["overlapping region"], cfg=TR),
@@ -473,8 +485,11 @@ PROPS["C06"] = {
         J(c05 + "Replace", npat=2, plen=3, tlen=4, letters=3, invalid=1, covers=["overlapping region"], cfg=TR),
         J(c05 + "Replace", npat=3, plen=2, lastlen=3, tlen=4, letters=2, invalid=0, covers=["overlapping region"], cfg=TR),
         J(c05 + "Replace", npat=3, plen=1, lastlen=4, tlen=5, letters=3, invalid=0, covers=["overlapping region"], cfg=TR),
+        J(c05 + "Replace", npat=2, plen=2, tlen=3, letters=3, invalid=1, rot=1, covers=["overlapping region"], cfg=TR),
+        J(c05 + "Replace", npat=2, plen=2, tlen=3, letters=3, invalid=1, rot=2, covers=["overlapping region"], cfg=TR),
+        J(c05 + "Replace", npat=2, plen=2, tlen=3, letters=3, invalid=1, rot=3, covers=["overlapping region"], cfg=TR),
     ],
-    "bounds": {"quick": "same symbolic alphabet as C05; 2 patterns <= 2 letters with texts <= 3 letters over 2 letters / <= 2 over 3 letters (+ one invalid byte); 3 patterns (two of <= 1 letter and one of exactly 3 letters: a long occurrence ending late that starts before earlier disjoint ones) with texts <= 4 over 2 letters; arbitrary mask rune; replacement = a byte outside the text alphabet",
+    "bounds": {"quick": "same symbolic alphabet as C05; 2 patterns <= 2 letters with texts <= 3 letters over 2 letters / <= 2 over 3 letters (+ one invalid byte); 3 patterns (two of <= 1 letter and one of exactly 3 letters: a long occurrence ending late that starts before earlier disjoint ones) with texts <= 4 over 2 letters; the 2-letter alphabets are {1-byte, 2-byte}, {3-byte, 4-byte} and {4-byte, 1-byte} runes, the 3-letter one {1,2,3-byte}; arbitrary mask rune; replacement = a byte outside the text alphabet",
                "thorough": "patterns up to 3-4 letters, texts up to 5"},
     "outside": ["replacement strings that can occur in the text (the parse of the output would be ambiguous)", "longer texts / more patterns"],
     "assumptions": ["the replacement byte 0x01 does not occur in the text alphabet (1-byte letters are >= 0x20)"],
